@@ -20,7 +20,7 @@ PROPS = {
                 streams=[('w1', 'S1', 40, 60), ('w2', 'S1', 20, 60), ('w1', 'S7', 20, 60)],
                 configs=['dbg', 'rel'], need=['destroy', 'probe', 'create']),
     'C02': dict(title='Every access path returns the entity\'s own, latest component values',
-                coq=['props/C02.vo'], tags=[2, 6, (9, 11)],   # (9, 11): a read through a direct handle returned another entity's values
+                coq=['props/C02.vo'], api=True, tags=[2, 6, (9, 11)],   # (9, 11): a read through a direct handle returned another entity's values
                 streams=[('w1', 'S2', 40, 70), ('w2', 'S2', 30, 70)],
                 configs=['dbg', 'rel'], need=['write', 'readall', 'create']),
     'C03': dict(title='Arbitrary, forged or foreign handles are memory-safe and never match by accident',
@@ -57,14 +57,14 @@ PROPS = {
                 configs=['dbg', 'rel'], need=['borrow']),
     'C12': dict(title='len and capacity are exact; creation respects capacity and the 2^24 limit',
                 coq=['props/C12.vo'], tags=[12],
-                streams=[('w1', 'S10', 50, 60), ('w2', 'S10', 20, 60)], fill=True,
+                streams=[('w1', 'S10', 50, 60), ('w2', 'S10', 20, 60)], fill=True, api=True,
                 configs=['dbg', 'rel'], need=['create', 'createw', 'len']),
     'C13': dict(title='A cloned world is observationally identical and thereafter independent',
                 coq=['props/C13.vo'], side='clone', tags=[13],
                 streams=[('w1', 'S11', 40, 70), ('w2', 'S11', 20, 70)],
                 configs=['dbg', 'rel'], need=['clone', 'switch']),
     'C14': dict(title='Handle conversions are lossless, type-faithful and consistent with Eq/Hash',
-                coq=['props/C14.vo'], fill=True, tags=[14],
+                coq=['props/C14.vo'], fill=True, api=True, tags=[14],
                 streams=[('w1', 'H1', 40, 60), ('w2', 'H1', 40, 60)],
                 configs=['dbg', 'rel'], need=['conv']),
 }
@@ -80,7 +80,7 @@ PROPS['C19'] = dict(title='Crate features and build profiles change nothing but 
                     streams=[('w1', 'S1', 12, 50), ('w1', 'S2', 10, 50), ('w1', 'S7', 12, 50), ('w1', 'S12', 10, 50), ('w1', 'S9', 8, 50), ('w3', 'S2', 10, 40), ('w3', 'S1', 8, 40)],
                     configs=['dbg-ev', 'dbg-wrap', 'rel', 'rel-plain', 'dbg-32'], need=['create'])
 PROPS['C15'] = dict(title='Archetype and component ids follow the discriminant rule and are unique',
-                    coq=['props/C15.vo'], big=True, cfgprobe='rule', tags=[15], macro=dict(cases=200, stress=True),
+                    coq=['props/C15.vo'], big=True, api=True, cfgprobe='rule', tags=[15], macro=dict(cases=200, stress=True),
                     streams=[('w2', 'H1', 10, 40)], configs=['dbg'], need=['conv'])
 PROPS['C16'] = dict(title='#[cfg]-disabled archetypes, components and query parameters behave as absent',
                     coq=['props/C16.vo'], tags=[16], macro=dict(cases=200, stress=False), cfgprobe='cfg',
